@@ -1,10 +1,10 @@
 _U = TOK + ["src/http/one/TeChunkedParser.cc", "src/http/one/Tokenizer.cc", "src/http/one/Parser.cc", "src/mime_header.cc", "src/MemBuf.cc",
            "src/SquidConfig.cc", "src/ip/Address.cc", "src/helper/ChildConfig.cc"]
 _SEG = "one-shot, every split point and byte-by-byte delivery"
-_SEGT = "one-shot, every pair of split points and byte-by-byte delivery"
+_SEGT = "one-shot, every split point, every pair of split points for inputs of at most 12 bytes, and byte-by-byte delivery"
 _g = lambda n, b, r=("done", "more", "bad"), **kw: dict(name=n, bounds=b, reach=list(r), **kw)
 _GQ = "; relaxed_header_parser in {0,1}; " + _SEG + "; oracle = reference decoder (DONE/MORE/BAD, decoded bytes, consumed length)"
-_GT = "; relaxed_header_parser in {-1,0,1}; " + _SEGT + "; oracle = reference decoder"
+_GT = "; relaxed_header_parser in {0,1}; " + _SEGT + "; oracle = reference decoder"
 _X = "; bytes that the chunk-size parser can see are case-split by the harness: one path per hex-digit character (concrete), all 234 other values one symbolic class"
 SPEC = dict(
     harness="C24_chunked.cc", units=_U,
@@ -13,33 +13,32 @@ SPEC = dict(
     o0_units=["src/parser/Tokenizer.cc", "src/http/one/TeChunkedParser.cc"],
     entries=dict(
         quick=[
-            _g("c24_rt_chunks", "reference encoder: body of 0..3 fully symbolic bytes in 1..3 chunks (every cut pair), 0/1 leading zeros on chunk-sizes (00 as last-chunk), output-space limit 1..len+1, one symbolic byte of the next message after the encoding; relaxed_header_parser in {0,1}; " + _SEG + "; every strict prefix", ("done",), sample_every=23, max_samples=8),
-            _g("c24_rt_ext", "reference encoder: two 1-byte chunks (symbolic data); chunk-ext of 6 shapes (;n  ;n=vv  ;n=\"q\\p\"  BWS;BWS n BWS=BWS v  ;n;n=\"\"BWS;n  bare BWS) with every name/value/qdtext/quoted-pair byte symbolic over its whole RFC 9112 class and SP/HTAB case-split; combinations (ext on first chunk, trailer line 'T:'+symbolic non-CR/LF byte, output-space limit 1), (ext on last-chunk, no trailer, limit 2), (ext on last-chunk, trailer, limit 1); relaxed_header_parser in {0,1}; " + _SEG + "; every strict prefix", ("done",), sample_every=11, max_samples=8),
-            _g("c24_rt_hex", "reference encoder: one chunk of 10..17 symbolic bytes (chunk-size a..f / 10, 11 with letters in either case); output-space limit in {7, size-1, size}; " + _SEG + "; every strict prefix", ("done",), sample_every=5, max_samples=8),
-            _g("c24_g_size", "5 skeletons with one unconstrained byte b in a chunk-size line: b'2', '0'b'2', '2'b CRLF, '2'b LF (each + 'ab' CRLF '0' CRLF CRLF) and '1' CRLF 'X' CRLF b CRLF CRLF (first digit, 0x/0X, digit/BWS/';'/CR after the digits, the CR, first byte of the second chunk-size line); output-space limit 1" + _GQ + _X, max_samples=8),
-            _g("c24_g_ext", "4 skeletons with 3 unconstrained bytes: '1;' b b b, '1;a=' b b b, '1;a=\"' b b b '\"', '1;' b 'a' b '=' b 'v' (each + CRLF 'X' CRLF '0' CRLF CRLF): extension list, value token/quoted-string, qdtext/quoted-pair, BWS positions; output-space limit 1" + _GQ, ("done", "bad"), max_samples=8),
-            _g("c24_g_end", "3 skeletons: '2' CRLF 'XY' b b '0' CRLF CRLF (CRLF after chunk-data; output-space limit in {1,3}), '1' CRLF 'X' CRLF '0' b b LF (after the last-chunk size), '1' CRLF 'X' CRLF '0' CRLF b b b (trailer-section and final CRLF)" + _GQ + _X, max_samples=8),
-            _g("c24_g_big", "b 'fffffffffffffff' b CRLF 'X' (first and 17th size character unconstrained: 0fff.., 7fff.., 8000.., 17 digits) and '7fffffffffffff' b b CRLF 'X' (15th and 16th)" + _GQ, ("more", "bad"), max_samples=8),
-            _g("c24_any", "every input of 1..2 unconstrained bytes; relaxed_header_parser = 1; one-shot and every split point" + _X, ("more", "bad"), max_samples=8),
+            _g("c24_rt_chunks", "reference encoder: body of 0..3 fully symbolic bytes in 1..3 chunks (every cut pair), 0/1 leading zeros on chunk-sizes (00 as last-chunk), output-space limit 1..len+1, one symbolic byte of the next message after the encoding; relaxed_header_parser in {0,1}; " + _SEG + "; every strict prefix", ("done",), sample_every=23, max_samples=3),
+            _g("c24_rt_ext", "reference encoder: two 1-byte chunks (symbolic data); chunk-ext of 6 shapes (;n  ;n=vv  ;n=\"q\\p\"  BWS;BWS n BWS=BWS v  ;n;n=\"\"BWS;n  bare BWS) with every name/value/qdtext/quoted-pair byte symbolic over its whole RFC 9112 class and SP/HTAB case-split; combinations (ext on first chunk, trailer line 'T:'+symbolic non-CR/LF byte, output-space limit 1), (ext on last-chunk, no trailer, limit 2), (ext on last-chunk, trailer, limit 1); relaxed_header_parser in {0,1}; " + _SEG + "; every strict prefix", ("done",), sample_every=11, max_samples=3),
+            _g("c24_rt_hex", "reference encoder: one chunk of 10..17 symbolic bytes (chunk-size a..f / 10, 11 with letters in either case); output-space limit in {7, size-1, size}; " + _SEG + "; every strict prefix", ("done",), sample_every=5, max_samples=3),
+            _g("c24_g_size", "5 skeletons with one unconstrained byte b in a chunk-size line: b'2', '0'b'2', '2'b CRLF, '2'b LF (each + 'ab' CRLF '0' CRLF CRLF) and '1' CRLF 'X' CRLF b CRLF CRLF (first digit, 0x/0X, digit/BWS/';'/CR after the digits, the CR, first byte of the second chunk-size line); output-space limit 1" + _GQ + _X, max_samples=3),
+            _g("c24_g_ext", "4 skeletons with 3 unconstrained bytes: '1;' b b b, '1;a=' b b b, '1;a=\"' b b b '\"', '1;' b 'a' b '=' b 'v' (each + CRLF 'X' CRLF '0' CRLF CRLF): extension list, value token/quoted-string, qdtext/quoted-pair, BWS positions; output-space limit 1" + _GQ, ("done", "bad"), max_samples=3),
+            _g("c24_g_end", "3 skeletons: '2' CRLF 'XY' b b '0' CRLF CRLF (CRLF after chunk-data; output-space limit in {1,3}), '1' CRLF 'X' CRLF '0' b b LF (after the last-chunk size), '1' CRLF 'X' CRLF '0' CRLF b b b (trailer-section and final CRLF)" + _GQ + _X, max_samples=3),
+            _g("c24_g_big", "b 'fffffffffffffff' b CRLF 'X' (first and 17th size character unconstrained: 0fff.., 7fff.., 8000.., 17 digits) and '7fffffffffffff' b b CRLF 'X' (15th and 16th)" + _GQ, ("more", "bad"), max_samples=3),
+            _g("c24_any", "every input of 1..2 unconstrained bytes; relaxed_header_parser = 1; one-shot and every split point" + _X, ("more", "bad"), max_samples=3),
         ],
         thorough=[
-            _g("c24_rt_chunks", "as quick with bodies of 0..5 bytes; relaxed_header_parser in {-1,0,1}; " + _SEGT, ("done",), sample_every=211, max_samples=8),
-            _g("c24_rt_ext", "as quick but every combination of (ext on first chunk / last-chunk) x (trailer / none) x (limit 1 / 2); relaxed_header_parser in {-1,0,1}; " + _SEGT, ("done",), sample_every=31, max_samples=8),
-            _g("c24_rt_hex", "as quick with one chunk of 9..33 bytes; " + _SEGT, ("done",), sample_every=11, max_samples=8),
-            _g("c24_g_size", "as quick" + _GT + _X, max_samples=8),
-            _g("c24_g_ext", "as quick" + _GT, ("done", "bad"), max_samples=8),
-            _g("c24_g_end", "as quick" + _GT + _X, max_samples=8),
-            _g("c24_g_big", "as quick" + _GT, ("more", "bad"), max_samples=8),
-            _g("c24_any", "every input of 1..2 unconstrained bytes" + _GT + _X, ("more", "bad"), max_samples=8),
-            _g("c24_g_size2", "b b CRLF 'ab' CRLF '0' CRLF CRLF and '0' b b CRLF 'ab' CRLF '0' CRLF CRLF: 2 unconstrained bytes of chunk-size field at once; output-space limit in {1,3}" + _GT + _X, max_samples=8),
-            _g("c24_g_next2", "'1' CRLF 'X' CRLF b b CRLF CRLF (2 unconstrained bytes of the second chunk-size line) and '1' b ';' b 'a' b '=' b 'v' CRLF 'X' CRLF '0' CRLF CRLF (all 4 BWS positions)" + _GT + _X, max_samples=8),
-            _g("c24_g_crlf", "'2' b b 'XY' b b '0' CRLF CRLF: 4 unconstrained bytes where the CRLFs after chunk-size and chunk-data belong; output-space limit in {1,3}" + _GT + _X, max_samples=8),
-            _g("c24_g_ext4", "'1;' b b b b CRLF 'X' CRLF '0' CRLF CRLF: 4 unconstrained bytes of chunk-ext" + _GT, ("done", "bad"), max_samples=8),
-            _g("c24_g_quoted4", "'1;a=\"' b b b b CRLF ...: 4 unconstrained bytes from inside a quoted-string to past its end" + _GT, ("done", "bad"), max_samples=8),
-            _g("c24_g_end4", "'1' CRLF 'X' CRLF '0' CRLF b b b b (4 unconstrained bytes of trailer-section / final CRLF) and '7fffffffffffff' b b b LF 'X' (15th..17th size character)" + _GT, max_samples=8),
+            _g("c24_rt_chunks", "as quick with bodies of 0..5 bytes; " + _SEGT, ("done",), sample_every=211, max_samples=3),
+            _g("c24_rt_ext", "as quick but every combination of (ext on first chunk / last-chunk) x (trailer / none) x (limit 1 / 2); " + _SEGT, ("done",), sample_every=31, max_samples=3),
+            _g("c24_rt_hex", "as quick with one chunk of 9..33 bytes; " + _SEGT, ("done",), sample_every=11, max_samples=3),
+            _g("c24_g_size", "as quick" + _GT + _X, max_samples=3),
+            _g("c24_g_ext", "as quick but relaxed_header_parser in {-1,0,1}" + _GT, ("done", "bad"), max_samples=3),
+            _g("c24_g_end", "as quick" + _GT + _X, max_samples=3),
+            _g("c24_g_big", "as quick" + _GT, ("more", "bad"), max_samples=3),
+            _g("c24_any", "every input of 1..2 unconstrained bytes" + _GT + _X, ("more", "bad"), max_samples=3),
+            _g("c24_g_size2", "b b CRLF 'ab' CRLF '0' CRLF CRLF: 2 unconstrained bytes of chunk-size field at once; output-space limit 1; relaxed_header_parser = 1; " + _SEGT + _X, max_samples=3),
+            _g("c24_g_next2", "'1' CRLF 'X' CRLF b b CRLF CRLF: 2 unconstrained bytes of the second chunk-size line; relaxed_header_parser = 1; " + _SEGT + _X, max_samples=3),
+            _g("c24_g_ext4", "'1;' b b b b CRLF 'X' CRLF '0' CRLF CRLF: 4 unconstrained bytes of chunk-ext; relaxed_header_parser = 1; " + _SEGT, ("done", "bad"), max_samples=3),
+            _g("c24_g_quoted4", "'1;a=\"' b b b b CRLF 'X' CRLF '0' CRLF CRLF: 4 unconstrained bytes from inside a quoted-string to past its end; relaxed_header_parser = 1; " + _SEGT, ("done", "bad"), max_samples=3),
+            _g("c24_g_end4", "'1' CRLF 'X' CRLF '0' CRLF b b b b (4 unconstrained bytes of trailer-section / final CRLF) and '7fffffffffffff' b b b LF 'X' (15th..17th size character)" + _GT, max_samples=3),
         ]),
     timeout=dict(quick=170, thorough=1500),
-    stubs=["SquidConfig Config is the real global, zero-initialised, with relaxed_header_parser set by the harness",
+    stubs=["SquidConfig Config is the real global, zero-initialised, with relaxed_header_parser set by the harness (-1 differs from 1 only in the level of disabled debugs(), so it is exercised in one thorough entry only)",
            "output buffer = real MemBuf with max_capacity = limit+1 (memAllocBuf family from harness/common/stubs.cc); the harness drains it after every parse() as BodyPipe consumers do",
            "debugs() disabled"],
     assumptions=["KNOWN-FINDING candidate excluded by vf_assume: inputs with SP/HTAB between a complete chunk-ext and the CRLF (e.g. '1;a=A \\t' CRLF) that are otherwise well-formed: the one-shot parse rejects them, a parse whose segment ends inside that whitespace accepts them"],
